@@ -139,4 +139,6 @@ REPLAY(deep_merge_widen) { return merge(wit); }
 REPLAY(deep_merge_first) { return merge(wit); }
 REPLAY(deep_leq_top) { return leq(wit); }
 REPLAY(deep_leq_bot) { return leq(wit); }
+REPLAY(deep_leq_self) { return leq_same(wit, false); }
+REPLAY(deep_leq_copy) { return leq_same(wit, true); }
 int main(int argc, char **argv) { return replay_main(argc, argv); }
